@@ -196,44 +196,35 @@ end Scalibr.Walk
 
 namespace Scalibr.Walk
 
-/-- a directory's own patterns do not match the directory itself. For every directory below the scan
-root this is the go-git domain rule (`ownOK_of_domain`); for the scan root it says that the root's
-`.gitignore` has no pattern matching the name "." -/
-def OwnOK (c : Cfg) (p : Path) : Node → Prop
-  | .dir (some ps) _ => ∀ isDir, c.giMatch ps (domainOf p) (tokens p) isDir = false
-  | _ => True
-
-theorem ownOK_of_domain (c : Cfg) (hd : DomainLaw c.giMatch) (p : Path) (hp : p ≠ []) (n : Node) : OwnOK c p n := by
-  cases n with
-  | file k sz => trivial
-  | dir gi es =>
-    cases gi with
-    | none => trivial
-    | some ps => intro isDir; apply hd; simp [domainOf, tokens, hp]
+/-- go-git's domain rule makes a directory's own patterns inert on the directory itself (non-root) -/
+theorem own_inert (c : Cfg) (hd : DomainLaw c.giMatch) (p : Path) (hp : p ≠ []) (ps : PatSet) (isDir : Bool) :
+    c.giMatch ps (domainOf p) (tokens p) isDir = false := by
+  apply hd; simp [domainOf, tokens, hp]
 
 theorem shouldSkipDir_eq_excluded (c : Cfg) (gis : List GiEntry) (p : Path) :
     shouldSkipDir c gis p = excludedDir c gis p := by
   unfold shouldSkipDir excludedDir
   cases hr : c.regex <;> cases hg : c.glob <;>
     cases c.dirsToSkip p <;> cases (c.ignoreSubDirs && !c.paths.contains p) <;>
-    cases (c.useGitignore && stackMatch c gis (tokens p) true) <;> simp
+    cases (c.useGitignore && p != [] && stackMatch c gis (tokens p) true) <;> simp
   all_goals (rename_i r; cases r p <;> simp)
 
 theorem stackMatch_append (c : Cfg) (g1 g2 : List GiEntry) (t : List String) (d : Bool) :
     stackMatch c (g1 ++ g2) t d = (stackMatch c g1 t d || stackMatch c g2 t d) := by
   unfold stackMatch; simp [List.any_append]
 
-theorem excluded_push_own (c : Cfg) (gis : List GiEntry) (p : Path) (x : Option PatSet)
-    (ho : ∀ ps, x = some ps → ∀ isDir, c.giMatch ps (domainOf p) (tokens p) isDir = false) :
+theorem excluded_push_own (c : Cfg) (hd : DomainLaw c.giMatch) (gis : List GiEntry) (p : Path) (x : Option PatSet) :
     excludedDir c (gis ++ [x.map fun ps => (domainOf p, ps)]) p = excludedDir c gis p := by
   unfold excludedDir
-  rw [stackMatch_append]
-  have : stackMatch c [x.map fun ps => (domainOf p, ps)] (tokens p) true = false := by
-    unfold stackMatch
-    cases x with
-    | none => simp
-    | some ps => simp [ho ps rfl true]
-  rw [this]; simp
+  by_cases hp : p = []
+  · subst hp; simp
+  · rw [stackMatch_append]
+    have : stackMatch c [x.map fun ps => (domainOf p, ps)] (tokens p) true = false := by
+      unfold stackMatch
+      cases x with
+      | none => simp
+      | some ps => simp [own_inert c hd p hp ps true]
+    rw [this]; simp
 
 theorem excluded_push_none (c : Cfg) (gis : List GiEntry) (p : Path) :
     excludedDir c (gis ++ [none]) p = excludedDir c gis p := by
@@ -244,8 +235,7 @@ theorem excluded_push_none (c : Cfg) (gis : List GiEntry) (p : Path) :
 /-- the gitignore part of `handleFile` in a benign configuration: afterwards the skip test gives the
 verdict of `excludedDir` on the patterns of the directories above, and — when the directory is entered —
 the stack carries exactly this directory's `giEntryOf` on top -/
-theorem pushGi_benign (c : Cfg) (hb : Benign c) (f : Faults) (s : St) (p : Path) (gi : Option PatSet)
-    (ho : ∀ ps, gi = some ps → ∀ isDir, c.giMatch ps (domainOf p) (tokens p) isDir = false) :
+theorem pushGi_benign (c : Cfg) (hb : Benign c) (ho : DomainLaw c.giMatch) (f : Faults) (s : St) (p : Path) (gi : Option PatSet) :
     (pushGi c f s p gi).2 = none ∧
     (pushGi c f s p gi).1.calls = s.calls ∧ (pushGi c f s p gi).1.cancelled = s.cancelled ∧
     shouldSkipDir c (pushGi c f s p gi).1.gis p = excludedDir c s.gis p ∧
@@ -274,11 +264,18 @@ theorem pushGi_benign (c : Cfg) (hb : Benign c) (f : Faults) (s : St) (p : Path)
         · intro _ idx; unfold giEntryOf; simp [h2]
       · simp only [h2, Bool.false_eq_true, if_false]
         refine ⟨by trivial, by trivial, by trivial, ?_, Or.inr ⟨by trivial, by trivial, _, rfl, ?_⟩⟩
-        · rw [shouldSkipDir_eq_excluded, excluded_push_own c _ _ _ ho]
+        · rw [shouldSkipDir_eq_excluded, excluded_push_own c ho]
         · intro _ idx; unfold giEntryOf; simp [h2]
 
 theorem giEntryOf_idx (f : Faults) (p : Path) (gi : Option PatSet) (i j : Nat) :
     giEntryOf f ⟨p, gi, i⟩ = giEntryOf f ⟨p, gi, j⟩ := rfl
+
+theorem gi_guard_congr' (c : Cfg) (A B : List GiEntry) (p : Path) (t : List String) (d : Bool)
+    (h : c.useGitignore = true → A = B) :
+    (c.useGitignore && p != [] && stackMatch c A t d) = (c.useGitignore && p != [] && stackMatch c B t d) := by
+  cases hu : c.useGitignore with
+  | false => simp
+  | true => rw [h hu]
 
 theorem gi_guard_congr (c : Cfg) (A B : List GiEntry) (t : List String) (d : Bool)
     (h : c.useGitignore = true → A = B) :
@@ -289,7 +286,7 @@ theorem gi_guard_congr (c : Cfg) (A B : List GiEntry) (t : List String) (d : Boo
 
 theorem excluded_congr (c : Cfg) (A B : List GiEntry) (p : Path) (h : c.useGitignore = true → A = B) :
     excludedDir c A p = excludedDir c B p := by
-  unfold excludedDir; rw [gi_guard_congr c A B _ _ h]
+  unfold excludedDir; rw [gi_guard_congr' c A B p _ _ h]
 
 theorem handleLeaf_benign (c : Cfg) (hb : Benign c) (f : Faults) (above : List GiEntry) (s : St) (r : FileRec)
     (hc : s.cancelled = false) (hg : c.useGitignore = true → s.gis = above ++ r.dirs.map (giEntryOf f)) :
@@ -358,12 +355,12 @@ theorem dirPasses_at (c : Cfg) (f : Faults) (above : List GiEntry) (anc : List D
 mutual
 theorem walkNode_spec (c : Cfg) (hb : Benign c) (hdl : DomainLaw c.giMatch) (f : Faults) (above : List GiEntry)
     (p : Path) (anc : List DirInfo) :
-    ∀ (n : Node) (s : St), OwnOK c p n → s.cancelled = false →
+    ∀ (n : Node) (s : St), s.cancelled = false →
       (c.useGitignore = true → s.gis = above ++ anc.map (giEntryOf f)) →
       (∀ d ∈ s.giDirs, d.length < p.length) →
       (walkNode c f s p n).2 = .none ∧
       Adv s (walkNode c f s p n).1 ((allFiles p anc n).flatMap (mustOneFrom anc.length c f above))
-  | .file k size, s, _, hc, hg, _ => by
+  | .file k size, s, hc, hg, _ => by
     simp only [walkNode, allFiles, List.flatMap_cons, List.flatMap_nil, List.append_nil]
     have hp := prologue_benign c hb s hc
     generalize prologue c s = x at hp ⊢
@@ -381,7 +378,7 @@ theorem walkNode_spec (c : Cfg) (hb : Benign c) (hdl : DomainLaw c.giMatch) (f :
     simp only [] at he2 hadv2
     subst he2
     exact ⟨rfl, by simpa using Adv.trans hadv1 hadv2⟩
-  | .dir gi es, s, hown, hc, hg, hshort => by
+  | .dir gi es, s, hc, hg, hshort => by
     simp only [walkNode, allFiles]
     have hp := prologue_benign c hb s hc
     generalize prologue c s = x at hp ⊢
@@ -390,7 +387,7 @@ theorem walkNode_spec (c : Cfg) (hb : Benign c) (hdl : DomainLaw c.giMatch) (f :
     simp only [] at he1 hadv1
     subst he1
     simp only []
-    have hpg := pushGi_benign c hb f s1 p gi (by intro ps hps; subst hps; exact hown)
+    have hpg := pushGi_benign c hb hdl f s1 p gi
     generalize pushGi c f s1 p gi = y at hpg ⊢
     obtain ⟨s2, e2⟩ := y
     obtain ⟨he2, hcalls2, hcan2, hskip, hor⟩ := hpg
@@ -520,7 +517,7 @@ theorem walkEntries_spec (c : Cfg) (hb : Benign c) (hdl : DomainLaw c.giMatch) (
       exact fserrCall_benign c hb s hc
     · simp only [hrk, Bool.false_eq_true, if_false]
       have hrk' : f.readEntryFail p k = false := by simpa using hrk
-      have hw := walkNode_spec c hb hdl f above (p ++ [name]) (anc ++ [⟨p, gi, k⟩]) n s (ownOK_of_domain c hdl _ (by simp) n) hc
+      have hw := walkNode_spec c hb hdl f above (p ++ [name]) (anc ++ [⟨p, gi, k⟩]) n s hc
         (by intro hu; rw [hg hu]; simp [giEntryOf_idx f p gi k 0])
         (by intro d hd; have := hshort d hd; simp; omega)
       generalize walkNode c f s (p ++ [name]) n = z at hw ⊢
